@@ -196,6 +196,13 @@ def frame_for (src, dst, variant, size, uid):
   if variant == "icmp":
     return F.eth(dst, src, 0x0800, F.ipv4(0x0a000001, 0x0a000002 + uid % 2, 1,
                  F.icmp(8, 0, payload=payload)))
+  if variant == "frag":
+    # a later fragment of a UDP datagram (no transport header in it)
+    return F.eth(dst, src, 0x0800, F.ipv4(0x0a000001, 0x0a000002, 17, payload[:40],
+                                          flags=uid % 2, frag=1 + uid % 3))
+  if variant == "frag_first":
+    return F.eth(dst, src, 0x0800, F.ipv4(0x0a000001, 0x0a000002, 17,
+                 F.udp(7, 9, payload, src=0x0a000001, dst=0x0a000002)[:8 + 32], flags=1, frag=0))
   if variant == "llc":
     return F.eth_8023(dst, src, F.llc(0x42, 0x42, 3, payload))
   if variant == "vlan_ip":
@@ -535,7 +542,7 @@ def gen_random (rng, count, maxlen):
       elif r < 0.94: d = "near_stp"
       else: d = "lldpdst"
       variant = rng.choice(["plain", "plain", "ip", "vlan", "lldp", "groupsrc",
-                            "arp", "tcp", "icmp", "llc", "vlan_ip"]
+                            "arp", "tcp", "icmp", "llc", "vlan_ip", "frag", "frag_first"]
                            if rng.random() < 0.35 else ["plain"])
       size = rng.choice([42, 50, 100, 124, 200, 1400])
       gap = rng.choice([0, 0, 0, 0, 5, 11, 31])
